@@ -41,12 +41,16 @@ pub enum Shape {
     V,
     /// no terms at all (the empty linear combination)
     N,
+    /// the sum of all committed variables, coefficient 1 each (symmetric in the commitments)
+    S,
 }
 
 #[derive(Clone, Copy, Debug, PartialEq, Eq, Hash, PartialOrd, Ord)]
 pub enum Op {
     /// commit (phase 1 only)
     C,
+    /// commit the value 0 with blinding 0: the commitment is the identity point
+    C0,
     /// commit again the very same opening as the most recent commitment (same value, same
     /// blinding, hence the same point); plain commit if there is none yet
     CD,
@@ -113,11 +117,13 @@ impl Op {
                 Shape::O => "o",
                 Shape::V => "v",
                 Shape::N => "n",
+                Shape::S => "s",
             }
         }
         match self {
             Op::C => "C".into(),
             Op::CD => "Cd".into(),
+            Op::C0 => "C0".into(),
             Op::A => "A".into(),
             Op::M => "M".into(),
             Op::AN => "An".into(),
@@ -141,6 +147,7 @@ impl Op {
                 'o' => Shape::O,
                 'v' => Shape::V,
                 'n' => Shape::N,
+                's' => Shape::S,
                 _ => return None,
             })
         }
@@ -152,6 +159,7 @@ impl Op {
             ('T', 1) => Some(Op::T),
             ('Z', 1) => Some(Op::Z),
             ('C', 2) if cs[1] == 'd' => Some(Op::CD),
+            ('C', 2) if cs[1] == '0' => Some(Op::C0),
             ('A', 2) if cs[1] == 'n' => Some(Op::AN),
             ('M', 2) if cs[1] == 'n' => Some(Op::MN),
             ('K', 2) => Some(Op::K(sh(cs[1])?)),
@@ -233,7 +241,7 @@ impl Program {
     pub fn stats(&self) -> (usize, usize, usize, usize) {
         fn step(op: &Op, pending: &mut bool, w: &mut usize, k: &mut usize, g: &mut usize) {
             match op {
-                Op::C | Op::CD => *w += 1,
+                Op::C | Op::CD | Op::C0 => *w += 1,
                 Op::A | Op::AN => {
                     *w += 1;
                     if *pending {
@@ -634,6 +642,7 @@ impl<F: PrimeField> Ctx<F> {
                 None => vec![(one, F::zero())],
             },
             Shape::N => vec![],
+            Shape::S => self.committed.iter().map(|v| (*v, F::one())).collect(),
             Shape::V => {
                 let g = F::from(self.refcs.gates() as u64);
                 match self.committed.first() {
@@ -713,6 +722,25 @@ pub fn exec_op<F: PrimeField>(op: Op, ctx: &mut Ctx<F>, side: &mut dyn Side<F>) 
             let blind = alphabet::rho::<F>(ctx.seed, &format!("blind{}", ctx.refcs.honest.v.len()));
             let e = ctx.refcs.commit(h, a, blind);
             let v = side.commit(a, blind);
+            handles.push(v);
+            expected.push(e);
+            ctx.vars.push(v);
+            ctx.committed.push(v);
+        }
+        Op::C0 => {
+            let h = F::zero();
+            let mut a = h;
+            if ctx.role == Role::Prover {
+                if let Dev::Witness { idx, delta } = &ctx.dev {
+                    if *idx == ctx.wcount {
+                        a += delta;
+                    }
+                }
+            }
+            ctx.wcount += 1;
+            ctx.witness_sites += 1;
+            let e = ctx.refcs.commit(h, a, F::zero());
+            let v = side.commit(a, F::zero());
             handles.push(v);
             expected.push(e);
             ctx.vars.push(v);
